@@ -749,6 +749,18 @@ class Translator:
             oid = self.new_obj(FRESH, join_origin(self.elem_origin_of(a.oid) if a.oid else FRESH,
                                                   self.elem_origin_of(b.oid) if b.oid else FRESH))
             return V("(%s ++ %s)" % (a.term, b.term), a.ty, oid)
+        if isinstance(n.op, ast.Mult) and (is_list(a.ty) or is_list(b.ty)):
+            # [c] * n: n copies; `[c] * len(xs)` is written as the comprehension [c for _ in xs]
+            lst, cnt, cnode = (a, b, n.right) if is_list(a.ty) else (b, a, n.left)
+            es = lst.extra.get("elems")
+            if not es or len(es) != 1 or is_object(es[0].ty):
+                raise Unsupported("list repetition of something that is not a one-element list of a number")
+            oid = self.new_obj(FRESH)
+            if isinstance(cnode, ast.Call) and isinstance(cnode.func, ast.Name) and cnode.func.id == "len" \
+                    and len(cnode.args) == 1 and not cnode.keywords:
+                xs = self.to_list(self.expr(cnode.args[0], env))
+                return V("(map (fun _ => %s) %s)" % (es[0].term, xs.term), lst.ty, oid)
+            return V("(repeat %s %s)" % (es[0].term, self.nat(cnt).term), lst.ty, oid)
         a, b = self.unwrap(a), self.unwrap(b)
         ops = {ast.Add: "+", ast.Sub: "-", ast.Mult: "*"}
         for k, s in ops.items():
